@@ -227,8 +227,52 @@ def case_plan(ctx, inp):
             axis_plans.append(("array", ind, bl))
         else:
             axis_plans.append(("dask", ind, None))
-    # --- walk the blocks in product order
+    # --- the whole N-d plan against the Lean model `SetItemND.planND` (NumPy indices only)
     in_keys = list(flatten(d.__dask_keys__()))
+    if all(isinstance(i, (slice, int)) or (isinstance(i, np.ndarray) and i.dtype != bool) for i in parsed):
+        enc = []
+        for i in parsed:
+            if isinstance(i, slice):
+                enc.append([Sym("sl"), int(i.start), int(i.stop), int(i.step)])
+            elif isinstance(i, int):
+                enc.append([Sym("int"), i])
+            else:
+                enc.append([Sym("arr"), [int(t) for t in i.tolist()]])
+        model = unsym(ctx.lean(Sym("setitemplan"), [list(c) for c in chunks], enc, [int(t) for t in implied],
+                               [int(t) for t in reverse], [int(t) for t in np.shape(val)]))
+
+        def _bix(i):
+            if isinstance(i, slice):
+                return ["sl", int(i.start), int(i.stop), int(i.step)]
+            if isinstance(i, (int, np.integer)):
+                return ["int", int(i)]
+            return ["arr", [int(t) for t in i.tolist()]]
+
+        def _vix(i):
+            if isinstance(i, slice):
+                return ["sl", canon_slice(i)]
+            if i is Ellipsis:
+                return ["ellipsis"]
+            return ["arr", [int(t) for t in np.asarray(i).tolist()]]
+
+        impl, cit = [], iter(rec.calls)
+        for in_key in in_keys:
+            task = dsk[("out",) + in_key[1:]]
+            if isinstance(task, tuple) and len(task) == 4 and callable(task[0]):
+                impl.append([[_bix(i) for i in task[3]], [_vix(i) for i in next(cit)]])
+            else:
+                impl.append(None)
+        ctx.eq("setitem_array N-d plan (block indices, value indices)", model, ["ok", impl])
+        ctx.branch("plan-nd-model-diffed")
+        if len(np.shape(val)) < len(implied) and np.ndim(val):
+            ctx.branch("plan-nd-value-lower-rank")
+        if len(np.shape(val)) > len(implied):
+            ctx.branch("plan-nd-value-extra-leading-axes")
+        if any(a != 1 and b == 1 for a, b in zip(reversed(implied), reversed(np.shape(val)))):
+            ctx.branch("plan-nd-broadcast-value-axis")
+        if reverse and np.ndim(val):
+            ctx.branch("plan-nd-reversed-with-array-value")
+    # --- walk the blocks in product order
     calls = iter(rec.calls)
     out = x.copy()
     nonint_axes = [ax for ax, (k, _, _) in enumerate(axis_plans) if k != "int"]
